@@ -102,7 +102,11 @@ def call(
             parameters[name] = value = value.astype(int)
         # With inexact coefficients the value is a float: integer arguments are
         # raised to their powers as floats, which do not wrap around.
-        if inexact and not isinstance(value, numpoly.ndpoly):
+        if inexact and isinstance(value, numpoly.ndpoly):
+            # (also an integer carried by a polynomial)
+            if value.dtype.kind in "bui":
+                parameters[name] = value.astype(float)
+        elif inexact:
             if isinstance(value, (bool, int)):
                 parameters[name] = float(value)
             elif (
